@@ -257,11 +257,12 @@ func (p ParsedScript) IsPushOnly() bool {
 }
 
 // removeOpcodeByData will return the script minus any opcodes that would push
-// the passed data to the stack.
+// the passed data to the stack. Only canonical pushes of exactly the passed
+// data are removed: a push whose data merely contains it is kept.
 func (p ParsedScript) removeOpcodeByData(data []byte) ParsedScript {
 	retScript := make(ParsedScript, 0, len(p))
 	for _, pop := range p {
-		if !pop.canonicalPush() || !bytes.Contains(pop.Data, data) {
+		if pop.op.val > bscript.OpPUSHDATA4 || !pop.canonicalPush() || !bytes.Equal(pop.Data, data) {
 			retScript = append(retScript, pop)
 		}
 	}
